@@ -167,6 +167,7 @@ struct Ghost {
   bool fwd_quiet = false;
   uint64_t fwd_start = 0;
   size_t baseline_blocks = 0;
+  size_t baseline_bytes = 0;
   size_t max_nodes = 0;
   long dummy = 0;
   char results[kMaxT][96];
@@ -674,6 +675,36 @@ Body(int tid)
         ++GH->stamp;
         break;
       }
+      case 'f': {  // the coordinator of a second manager instance forwards *its* manager
+        if (W->mgr2 == nullptr) break;
+        size_t before;
+        {
+          vs::NoSchedule ns;
+          before = W->mgr2->GetCurrentEpoch();
+        }
+        W->mgr2->ForwardGlobalEpoch();
+        vs::NoSchedule ns;
+        const size_t cur = W->mgr2->GetCurrentEpoch();
+        if (cur != before + 1) {
+          vs::Violate("C16", "EPOCH-STEP:second-manager", Fmt("ForwardGlobalEpoch moved the second manager's epoch from %zu to %zu", before, cur));
+        }
+        bool uses_t = false;
+        for (auto &t : PROG.th)
+          for (auto &o : t.ops) uses_t |= (o.mn == 'T');
+        if (!uses_t) {
+          // nobody ever creates a guard of the second manager in this program
+          int mode = 0;
+          const auto *l = ListOfImpl(W->mgr2, cur, &mode);
+          const size_t mn = W->mgr2->GetMinEpoch();
+          const bool list_ok = l == nullptr || (l->size() == 2 && (*l)[0] == cur && (*l)[1] == cur - 1);
+          if (!list_ok || mn != cur - 1) {
+            vs::Violate("C16,C20", "SECOND-MANAGER-LIST",
+                        Fmt("no guard of the second manager exists, yet its list for epoch %zu is %s and its minimum epoch %zu", cur,
+                            l != nullptr ? ListStr(*l).c_str() : "?", mn));
+          }
+        }
+        break;
+      }
       case 'B': {
         vs::PlainPoint(&GH->dummy, false);
         vs::NoSchedule ns;
@@ -758,10 +789,14 @@ Setup()
   }
   W = new World{};
   GH->baseline_blocks = vs::LiveBlocksTotal();
+  GH->baseline_bytes = 0;
+  vs::ForEachBlock([&](const vs::BlockInfo &bi) {
+    if (bi.st == vs::B_LIVE) GH->baseline_bytes += bi.size;
+  });
   W->mgr = new EpochManager{};
   bool two = false;
   for (auto &t : PROG.th)
-    for (auto &o : t.ops) two |= (o.mn == 'T');
+    for (auto &o : t.ops) two |= (o.mn == 'T' || o.mn == 'f');
   if (two) W->mgr2 = new EpochManager{};
 }
 
@@ -779,10 +814,24 @@ Teardown()
   W->mgr2 = nullptr;
   const size_t nodes = LiveNodes();
   const size_t total = vs::LiveBlocksTotal();
-  if (nodes != 0 || total != GH->baseline_blocks) {
+  // every list node must be gone. Other blocks: the property speaks about the memory held for the lists, not about a
+  // scratch buffer with static storage duration that an implementation may keep (bounded, independent of the history):
+  // up to 4 residual non-node blocks of at most 4 KiB in total are tolerated, anything beyond is a leak
+  size_t extra_blocks = 0, extra_bytes = 0;
+  if (total > GH->baseline_blocks) {
+    size_t seen = 0;
+    vs::ForEachBlock([&](const vs::BlockInfo &bi) {
+      if (bi.st != vs::B_LIVE || IsNodeBlock(bi)) return;
+      ++seen;
+      extra_bytes += bi.size;
+    });
+    extra_blocks = seen > GH->baseline_blocks ? seen - GH->baseline_blocks : 0;
+    extra_bytes = extra_bytes > GH->baseline_bytes ? extra_bytes - GH->baseline_bytes : 0;
+  }
+  if (nodes != 0 || extra_blocks > 4 || extra_bytes > 4096) {
     vs::Violate("C20", "MANAGER-LEAK",
-                Fmt("after destroying the EpochManager %zu list node(s) and %zu block(s) in total are still allocated", nodes,
-                    total - std::min(total, GH->baseline_blocks)));
+                Fmt("after destroying the EpochManager %zu list node(s) and %zu other block(s) (%zu bytes) are still allocated", nodes,
+                    extra_blocks, extra_bytes));
   }
   delete W;
   delete GH;
@@ -1027,6 +1076,11 @@ Family(const std::string &f)
     const std::vector<int> ks = f == "gen1" ? std::vector<int>{0, 255, 511} : f == "gen1q" ? std::vector<int>{0, 255} : std::vector<int>{255};
     for (auto &w : scripts)
       for (auto &k : coords) with_prefixes("W0:" + w + " | K:" + k, ks);
+  } else if (f == "twomgr") {  // two manager instances, each with its own coordinator, forwarding concurrently
+    out.push_back("k=0;W0:C P D | K:F F | K:f f");
+    out.push_back("k=0;W0:C P E P D | K:F | K:f");
+    out.push_back("k=255;W0:L V P V D | K:F F | K:f f");
+    out.push_back("k=0;W0:Q N Q | K:F N F | K:f f");
   } else if (f == "gen2" && kCap >= 2) {
     // two workers with short scripts (all unordered pairs), coordinator F F, at a node boundary
     const std::vector<std::string> ws = {"C D", "C P D", "C E D", "L V D", "L P V D", "C P", "L V", "Q N"};
